@@ -124,6 +124,8 @@ func c11Round(phaseIdx int) {
 	cur := int32(verifrt.Concrete(verifrt.IntRange("st.currentBatch", 0, nb)))
 	st.CanaryStatus.CurrentBatch = cur
 	st.ObservedWorkloadReplicas = 10
+	// the revisions Initialize recorded: what the planes compare the workload with to see a rollback
+	st.StableRevision, st.UpdateRevision = "rev-1", "rev-2"
 	st.ObservedRolloutID = "rid-1"
 	if verifrt.Bool("st.rolloutIDChanged") {
 		st.ObservedRolloutID = "rid-0"
@@ -163,7 +165,8 @@ func c11Round(phaseIdx int) {
 	ctrl.info.Status.UpdateRevision = "rev-2"
 	ctrl.info.Status.StableRevision = "rev-1"
 	if verifrt.Bool("wl.rolledBack") {
-		ctrl.info.Status.StableRevision = "rev-2"
+		// the template is the stable one again: the update revision is the stable revision
+		ctrl.info.Status.UpdateRevision = "rev-1"
 	}
 	r := &Executor{client: &symclient.Client{}, recorder: record.NewFakeRecorder(10)}
 
@@ -258,6 +261,19 @@ func c11Round(phaseIdx int) {
 		verifrt.Cover("stopped")
 		verifrt.Assert(!ctrl.called("UpgradeBatch") && !ctrl.called("Finalize") && !ctrl.called("Initialize") && !ctrl.called("Ensure"), "C11.supersededOrUnstableStopsTheRound")
 	}
+	// ---- C10: a rollback that cannot be handled yet (the release is not annotated for a rollback in batches, or the
+	// workload is not back on its stable revision) stops the round and stays visible: the revisions recorded in the
+	// status are left alone, so every later round stops as well — until the Rollout controller has put traffic back on
+	// stable and cancelled the plan
+	if progressing && !ctrl.syncErr && ctrl.event == control.WorkloadRollbackInBatch && release.DeletionTimestamp == nil && hasPartition && !planChanged &&
+		int(pre.CanaryStatus.CurrentBatch) < nb && pre.CanaryStatus.NoNeedUpdateReplicas == nil {
+		handled := ctrl.info.Status.StableRevision == ctrl.info.Status.UpdateRevision && release.Annotations[v1alpha1.RollbackInBatchAnnotation] != ""
+		if !handled {
+			verifrt.Cover("rollback-waiting")
+			verifrt.Assert(!executed && !ctrl.called("UpgradeBatch") && !ctrl.called("Ensure") && !ctrl.called("Finalize"), "C10.executor.unhandledRollbackStopsTheRound")
+			verifrt.Assert(post.UpdateRevision == pre.UpdateRevision && post.StableRevision == pre.StableRevision, "C10.executor.unhandledRollbackStaysVisible")
+		}
+	}
 	// a phase/state change decided while syncing is persisted before anything acts on it
 	if !executed {
 		verifrt.Assert(!ctrl.called("UpgradeBatch") && !ctrl.called("Finalize") && !ctrl.called("Initialize") && !ctrl.called("Ensure"), "C06.executor.persistBeforeAct")
@@ -283,3 +299,7 @@ func VerifC06_ExecutorPersistsBeforeActing_Preparing()   { VerifC11_ExecutorRoun
 // C07: the executor asks to be called again whenever it moved a batch along (obligation
 // C07.executor.progressComesWithARequeue of the Progressing round).
 func VerifC07_ExecutorProgressComesWithARequeue() { VerifC11_ExecutorRound_Progressing() }
+
+// C10: the new-revision pods stay where they are while a rollback is waiting to be handled
+// (C10.executor.unhandledRollback* of the same round relation).
+func VerifC10_ExecutorUnhandledRollbackStaysVisible() { VerifC11_ExecutorRound_Progressing() }
